@@ -276,6 +276,13 @@ def scenario(ctx, servertype, commtimeout, poolsize, acts1, acts2, case):
 
 
 def run(ctx):
+    import warnings
+    with warnings.catch_warnings():
+        warnings.simplefilter("ignore", SyntaxWarning)      # serpent's literal_eval on mutated payload text
+        _run(ctx)
+
+
+def _run(ctx):
     rng = ctx.sub_rng("real" + ("-search" if ctx.search_mode else ""))
     rounds = ctx.n(1, 12)
     n1, n2 = (24, 8) if ctx.tier != "thorough" else (60, 20)
